@@ -218,10 +218,38 @@ def shifted_north(draw):
     return spec
 
 
+@st.composite
+def large_grid_with_holes(draw):
+    """2-D grids of 768-1536 cells (32 columns) with scattered holes and whole bands of rows
+    without geometry: more than a thousand features, long runs of missing cells."""
+    ni = 32
+    nj = draw(st.integers(24, 48))
+    unit = 2.0 ** -draw(st.sampled_from([1, 2, 3]))
+    x0, y0 = draw(st.integers(-60, 60)) * unit, draw(st.integers(-60, 20)) * unit
+    nodes = [[[x0 + i * unit, y0 + j * unit] for i in range(ni + 1)] for j in range(nj + 1)]
+    holes = [[False] * ni for _ in range(nj)]
+    for _ in range(draw(st.integers(0, 2))):
+        # a band of rows: with 32 columns, eight rows are 256 consecutive linear indexes
+        rows = draw(st.sampled_from([8, 8, 9, 16, 3]))
+        start = draw(st.sampled_from([0, 8, 16, 24, 5])) if nj - rows > 24 else draw(st.integers(0, max(0, nj - rows - 1)))
+        for j in range(start, min(start + rows, nj - 1)):
+            holes[j] = [True] * ni
+    for _ in range(draw(st.integers(0, 6))):
+        holes[draw(st.integers(0, nj - 1))][draw(st.integers(0, ni - 1))] = True
+    holes[nj - 1][ni - 1] = False
+    shoc = draw(st.booleans())
+    geom = {"nodes": nodes, "holes": holes, "twisted": [], "bounds": True, "bad_bounds": None,
+            "names": draw(st.sampled_from(S.SHOC_SIMPLE_NAMES if shoc else S.CF2D_NAMES)),
+            "coords_as": "coord", "bounds_as": "var", "detect": "units", "decoy_first": False}
+    return {"conv": "shoc_simple" if shoc else "cf2d", "geom": geom, "extra": {}, "vars": [],
+            "mode": "raw", "bind": "auto", "warmup": []}
+
+
 SUBS = [
     Sub("export", strategy, check_spec, quick=250, thorough=1000),
     Sub("export_awkward_coordinates", lambda tier: awkward_coordinates(), check_spec, quick=80, thorough=400),
     Sub("export_east_of_180", lambda tier: shifted_east(), check_spec, quick=40, thorough=200),
+    Sub("export_large_grids_with_holes", lambda tier: large_grid_with_holes(), check_spec, quick=4, thorough=30),
     Sub("export_beyond_the_poles", lambda tier: shifted_north(), check_spec, quick=40, thorough=200),
 ]
 MATCHERS = {}
